@@ -153,7 +153,7 @@ def interpreter_replay_only(jr):
     return False
 
 
-def run_property(prop, tier, jobs, title, design_ref, assumptions, outside, expect_reach=None, finding_matcher=None, extra_inconclusive=None, extra_coverage=None):
+def run_property(prop, tier, jobs, title, design_ref, assumptions, outside, expect_reach=None, finding_matcher=None, extra_inconclusive=None, extra_coverage=None, extra_violations=None):
     t0 = time.time()
     seed = common.seed_from_env()
     binp, bdt = build_gosym()
@@ -235,6 +235,9 @@ def run_property(prop, tier, jobs, title, design_ref, assumptions, outside, expe
         n += 1
         if n <= 20:
             print("VIOLATION property=%s replay=%s   # %s/%s: %s | %s" % (prop, path, jr["job"], h["harness"], f["msg"], text[:160]))
+    for path, text in (extra_violations or []):
+        seen.add(("extra", path, text))
+        print("VIOLATION property=%s replay=%s   # %s" % (prop, path, text[:400]))
     for msg in inconclusive[:25]:
         print("INCONCLUSIVE property=%s %s" % (prop, msg))
     obligations = tot["asserts"]
@@ -428,17 +431,19 @@ def c02(prop, tier):
 
 
 def c20(prop, tier):
+    import ecs
+    mv, mi, mc = ecs.commit_mask(prop, tier)
     curves = ["bn254"] if tier == "quick" else CURVES
     jobs = [Job("plonk-blinding-" + c, "./backend/plonk/" + c, ["prelude_sym.go", "prelude_fr_sym.go", "c20_plonk.go"],
                 {"PKGNAME": "plonk", "CURVEPKG": "github.com/consensys/gnark-crypto/ecc/" + c, "FRPKG": fr_pkg(c)}) for c in curves]
     reach = {"verifHarness_randomPolynomial": ["coefficients-independent", "second-polynomial-differs", "random-polynomial"],
              "verifHarness_blindingOrders": ["all-blinding-coefficients-nonzero", "orders"], "verifHarness_blindedCoefficients": ["blinded-coefficients"]}
     return run_property(prop, tier, jobs,
-                        title="C20 (PLONK prover, data-flow of the blinding): SetRandom is a fresh symbolic draw per call; blinding polynomials have degrees 1,1,1,2 with independent coefficients; the blinded coefficient vector is exactly p + b*(X^n-1).",
+                        title="C20 (PLONK prover, data-flow of the blinding; Groth16 in-circuit commitments are masked - E-CS MASKED query on circuits with 1..3 commitments compiled by the real R1CS builder): SetRandom is a fresh symbolic draw per call; blinding polynomials have degrees 1,1,1,2 with independent coefficients; the blinded coefficient vector is exactly p + b*(X^n-1).",
                         design_ref="DESIGN.md §3 C20",
                         assumptions=["fr.Element.SetRandom returns an independent uniform draw (stub: fresh symbol)"],
-                        outside=["Groth16 r/s blinding in Prove (goroutine pipeline)", "entropy statements", "commitment hint randomisation (frontend Commit mask)", "commitBlindingFactor / evaluateBlinded (MSM / Horner on gnark-crypto polynomials)"],
-                        expect_reach=reach)
+                        outside=["Groth16 r/s blinding in Prove (goroutine pipeline)", "entropy statements", "the mask hint's own randomness (hints.Randomize draws from crypto/rand)", "commitBlindingFactor / evaluateBlinded (MSM / Horner on gnark-crypto polynomials)"],
+                        expect_reach=reach, extra_violations=mv, extra_inconclusive=mi, extra_coverage=mc)
 
 
 def c15(prop, tier):
